@@ -51,7 +51,7 @@ def generate(family, rng, tier, force=None):
     busword = 32      # csr_data_width=8: hardware answers at byte address i, exports say 4*i (listed known finding C14-F1) -> via `force`
     p = {"bus_standard": rng.choice(["wishbone", "wishbone", "axi-lite", "axi"]), "bus_interconnect": rng.choice(["shared", "crossbar"]),
          "csr_data_width": busword, "csr_paging": rng.choice([0x800, 0x800, 0x400, 0x1000]), "csr_ordering": "big",
-         "with_ctrl": rng.random() < 0.7, "with_timer": rng.random() < 0.4}
+         "with_ctrl": rng.random() < 0.7, "with_timer": rng.random() < 0.4, "csr_address_width": rng.choice([14, 14, 15, 16])}
     # csr_ordering="little": the generated accessors stay big-endian (listed known finding C14-F2) -> only via `force`
     if force:
         p.update(force)
@@ -65,7 +65,9 @@ def generate(family, rng, tier, force=None):
             size = max(1, min(size, 64 if rng.random() < 0.8 else 70))
             regs.append({"kind": rng.choice(["storage", "storage", "status"]), "name": "r%d" % idx, "size": size})
             idx += 1
-        periphs.append({"name": "per%d" % k, "regs": regs, "loc": rng.choice([None, None, 5 + k, 9 + k])})
+        n_locs = 4 * (1 << p["csr_address_width"]) // p["csr_paging"]
+        # fixed locations include the upper half of the CSR address space (only reachable when every hop keeps the full address width)
+        periphs.append({"name": "per%d" % k, "regs": regs, "loc": rng.choice([None, None, 5 + k, 9 + k, n_locs // 2 + 1 + k, n_locs - 1 - k])})
     rams = []
     for k in range(rng.randint(1, 2)):
         rams.append({"name": "ram%d" % k, "origin": 0x20000000 + k * 0x10000000, "size": rng.choice([0x40, 0x100, 0x1000])})
@@ -142,7 +144,7 @@ def _run(scn, d):
             platform = GenericPlatform("dev", io=[])
             SoCMini.__init__(self, platform, clk_freq=int(1e6), bus_standard=p["bus_standard"], bus_interconnect=p["bus_interconnect"],
                              bus_timeout=64, csr_data_width=p["csr_data_width"], csr_paging=p["csr_paging"], csr_ordering=p["csr_ordering"],
-                             with_ctrl=p["with_ctrl"], with_timer=p["with_timer"])
+                             csr_address_width=p.get("csr_address_width", 14), with_ctrl=p["with_ctrl"], with_timer=p["with_timer"])
             self.clock_domains.cd_sys = ClockDomain()
             for spec in scn["periphs"]:
                 setattr(self.submodules, spec["name"], Periph(spec))
